@@ -200,6 +200,17 @@ func (x *Exec) assumeValid(st *State, v Val) {
 		switch u := v.GT.Underlying().(type) {
 		case *types.Pointer, *types.Map, *types.Signature, *types.Chan:
 			st.assume(mkAnd(app(sBool, "<=", intLit(0), v.T), app(sBool, "<", v.T, st.alloc)))
+			if strings.HasPrefix(v.T.S, "|H:global:") && strings.HasSuffix(v.T.S, "@0|") {
+				// the value a package-level variable had at entry was allocated before the call
+				ea := st.alloc
+				if x.entry != nil {
+					ea = x.entry.alloc
+				}
+				st.assume(app(sBool, "<", v.T, ea))
+				if _, ok := x.boundOf[v.T.S]; !ok {
+					x.boundOf[v.T.S] = 1
+				}
+			}
 			x.noteBound(st, v.T)
 		case *types.Interface:
 			st.assume(mkImplies(app(sBool, "(_ is iptr)", v.T), mkAnd(app(sBool, "<=", intLit(0), app(sInt, "iref", v.T)), app(sBool, "<", app(sInt, "iref", v.T), st.alloc))))
